@@ -239,6 +239,15 @@ def corpus(ctx, rng):
                       for c in range(nch)]
             jobs.append({"what": f"{nch} chains without identifier{'' if oxt else ', no OXT'}", "text": gen.pdb_text(chains),
                          "args": ["--ff=AMBER", "--noopt", "--nodebump"], "truth": truth(chains), "strands": []})
+    # the input variants shared with C03 / C04 / C05 (conformations, omitted atoms, other spellings, several peptides per chain
+    # id, a MODEL wrapper, ...): whatever the shape of the input, residue charges are the formal ones
+    from .. import corpus as shared
+    for j in shared.variants(True, random.Random(ctx.seed + 21)):
+        if "--clean" in j["args"] or "gap" in j["what"] or any("propka" in a for a in j["args"]):
+            continue        # no charges under --clean; a backbone gap is a chain end the input does not mark; titration changes
+                            # the states away from the names in the input (C06 judges those)
+        jobs.append({"what": f"variant: {j['what']} {' '.join(j['args'])}", "text": j["text"], "args": j["args"],
+                     "truth": truth_from_text(j["text"], "--neutraln" in j["args"], "--neutralc" in j["args"]), "strands": []})
     # the repository's cyclic peptide: no termini at all
     cyc_text = open(os.path.join(DATA, "5vav_cyclic_peptide.pdb")).read()
     tr = []
@@ -263,6 +272,35 @@ def corpus(ctx, rng):
             jobs.append({"what": f"5vav cyclic + {label} ff={ff}", "text": text, "args": [f"--ff={ff}"],
                          "truth": tr + truth(extra), "strands": []})
     return jobs
+
+
+def truth_from_text(text, nn=False, nc=False):
+    """residue ground truth read off PDB text: class by residue name, chain ends by chain identifier, TER (for records
+    without identifier) and OXT (hidden ends)"""
+    res, order = {}, []
+    ters = 0
+    for ln in text.split("\n"):
+        if ln.startswith("TER"):
+            ters += 1
+        if not ln.startswith(("ATOM", "HETATM")):
+            continue
+        ch = ln[21:22].strip()
+        k = (ch if ch else f"#{ters}", int(ln[22:26]), ln[26:27].strip())
+        if k not in res:
+            res[k] = {"name": ln[17:20].strip(), "atoms": set(), "chain": ch}
+            order.append(k)
+        res[k]["atoms"].add(ln[12:16].strip())
+    out = []
+    is_aa = lambda k: res[k]["name"] in gen.AMINO or res[k]["name"] in VARIANTS
+    for i, k in enumerate(order):
+        nm = res[k]["name"]
+        cls = "aa" if is_aa(k) else ("wat" if nm in ("HOH", "WAT") else ("na" if nm in ("DA", "DC", "DG", "DT", "A", "C", "G", "U") else "other"))
+        prev = order[i - 1] if i > 0 else None
+        nxt = order[i + 1] if i + 1 < len(order) else None
+        n_end = cls == "aa" and (prev is None or prev[0] != k[0] or not is_aa(prev) or bool(res[prev]["atoms"] & {"OXT", "OT2", "O''"}))
+        c_end = cls == "aa" and (nxt is None or nxt[0] != k[0] or not is_aa(nxt) or bool(res[k]["atoms"] & {"OXT", "OT2", "O''"}))
+        out.append({"key": [res[k]["chain"], k[1], k[2]], "name": nm, "cls": cls, "n": n_end, "c": c_end, "nn": nn, "nc": nc})
+    return out
 
 
 def _pipe_job(job):
